@@ -403,7 +403,9 @@ func runC10(c *Ctx, d c10Desc) {
 		ok := complete(nxt, []byte("resp-next")) && nxt.Err == nil && bytes.Equal(nxt.W.Body(), []byte("resp-next"))
 		c.Check(ok, "next_ok", "C10/next-fails/"+d.Phase, "the next sequential invocation failed", vh.ErrName(nxt.Err))
 	} else {
-		// generation 3 is autonomous
+		// generation 3 is autonomous; its cold start is not what is being timed here (the short timeout of this
+		// world only served to make the first invocation expire quickly)
+		w.E.Srv.SetInvokeTimeout(5 * time.Second)
 		nxt = w.E.InvokeAsync([]byte("next-one"), vh.InvokeOpts{})
 		ok := nxt.Wait(6*time.Second) && nxt.Err == nil && bytes.Equal(nxt.W.Body(), EchoBody([]byte("next-one")))
 		c.Check(ok, "next_ok", "C10/next-fails/"+d.Phase, "the next sequential invocation (after reset) failed", vh.ErrName(nxt.Err))
